@@ -1268,14 +1268,23 @@ impl<'a, 'b> InternalDelphiLogicalLineParser<'a, 'b> {
         let paren_level = self.paren_level;
         let brack_level = self.brack_level;
         let generic_level = self.generic_level;
+        // Chevrons only form a pair when the pair is opened by one; between parentheses or
+        // brackets a `<` may just as well be a comparison that is never closed.
+        let is_chevron_pair = matches!(
+            self.get_current_token_type(),
+            Some(TT::Op(OK::LessThan(_)))
+        );
 
         self.next_token();
         while (self.paren_level != paren_level
             || self.brack_level != brack_level
-            || self.generic_level != generic_level)
+            || (is_chevron_pair && self.generic_level != generic_level))
             && self.get_current_token_type().is_some()
         {
             self.next_token();
+        }
+        if !is_chevron_pair {
+            self.generic_level = generic_level;
         }
     }
 
